@@ -14,10 +14,12 @@ import (
 	ds "github.com/ipfs/go-datastore"
 	dssync "github.com/ipfs/go-datastore/sync"
 	ipfscluster "github.com/ipfs/ipfs-cluster"
+	"github.com/ipfs/ipfs-cluster/api"
 	"github.com/ipfs/ipfs-cluster/cmdutils"
 	"github.com/ipfs/ipfs-cluster/config"
 	"github.com/ipfs/ipfs-cluster/consensus/raft"
 	"github.com/ipfs/ipfs-cluster/pstoremgr"
+	"github.com/ipfs/ipfs-cluster/state/dsstate"
 	"github.com/libp2p/go-libp2p-core/peerstore"
 	ma "github.com/multiformats/go-multiaddr"
 
@@ -64,6 +66,12 @@ func genC14(tier string, seed uint64) *simkit.Plan {
 		pin := genPin(r, ncids, 1)
 		pin.Origins = 0 // known finding of C01: origins do not survive the Raft log; JSON export is exercised by the other fields
 		p.AddStep(Step{Op: "pin", Pin: pin})
+	}
+	if r.Chance(0.15) {
+		// every pinset: the empty one too (everything unpinned again)
+		for c := 0; c < ncids; c++ {
+			p.AddStep(Step{Op: "unpin", Pin: &PinSpec{Cid: c, RMin: -1, RMax: -1}})
+		}
 	}
 	p.AddStep(Step{Op: "roundtrip"})
 	k := r.Range(1, 5)
@@ -233,6 +241,46 @@ func execC14(w *world) {
 				run.Violate("C14/offline_state_differs", "", "the pinset at shutdown was %s; OfflineState on its data folder yields %s", fmtState(expected), fmtState(got))
 			}
 			run.Probe("offline_state_checked")
+			// 1b. serialising then deserialising the state: into an empty state and
+			// into one that holds other pins (one of them under a CID of this pinset,
+			// one under a CID of its own) - what was there is replaced
+			if stA, err := raft.OfflineState(cfgA, dssync.MutexWrap(ds.NewMapDatastore())); err == nil {
+				var dump bytes.Buffer
+				if err := stA.Marshal(&dump); err != nil {
+					run.Violate("C14/serialise_error", "", "Marshal of the state failed: %v", err)
+					return
+				}
+				for _, occupied := range []bool{false, true} {
+					dst, err := dsstate.New(dssync.MutexWrap(ds.NewMapDatastore()), "", dsstate.DefaultHandle())
+					if err != nil {
+						panic(err)
+					}
+					if occupied {
+						o1 := api.PinCid(w.cids[0])
+						o1.Name = "resident-a"
+						o2 := api.PinCid(simkit.TestCid(77))
+						o2.Name = "resident-b"
+						dst.Add(context.Background(), o1)
+						dst.Add(context.Background(), o2)
+					}
+					if err := dst.Unmarshal(bytes.NewReader(dump.Bytes())); err != nil {
+						run.Violate("C14/serialise_error", "", "Unmarshal of a state dump (%d bytes) failed: %v", dump.Len(), err)
+						continue
+					}
+					pins, _ := dst.List(context.Background())
+					gotD := map[string]string{}
+					for _, p := range pins {
+						gotD[p.Cid.String()] = render(p)
+					}
+					if !sameMap(gotD, expected) {
+						run.Violate("C14/deserialised_differs", fmt.Sprintf("occupied=%v", occupied), "the pinset %s was serialised (%d bytes) and deserialised into a state that held %d other pins; it now lists %s", fmtState(expected), dump.Len(), map[bool]int{false: 0, true: 2}[occupied], fmtState(gotD))
+					}
+				}
+				if len(expected) == 0 {
+					run.Probe("empty_pinset_round_trip")
+				}
+				run.Probe("state_dump_round_trips")
+			}
 			// 2. export (JSON stream) ...
 			ident := &config.Identity{ID: simkit.TestPeer(0)}
 			ccA := &ipfscluster.Config{}
@@ -530,6 +578,13 @@ func (w *world) peerstoreRoundTrip(seed uint64) {
 		mixed = append(mixed, junk[r.Intn(len(junk))])
 		os.WriteFile(path, []byte(strings.Join(mixed, "\n")+"\n"), 0o644)
 		run.Fault("malformed_peerstore_lines")
+	}
+	if r.Chance(0.3) {
+		// a file edited by hand: no newline after the last line
+		if b, err := os.ReadFile(path); err == nil && len(b) > 0 && b[len(b)-1] == '\n' {
+			os.WriteFile(path, b[:len(b)-1], 0o644)
+			run.Probe("peerstore_without_final_newline")
+		}
 	}
 	hB := w.net.AddPeer(21)
 	pmB := pstoremgr.New(context.Background(), hB, path)
